@@ -167,7 +167,7 @@ fn gen_cmd(args: &[String]) -> i32 {
         }
         Some("streamfiles") => {
             // lengths (and as-built inflate thresholds) of the real files behind MCTransport
-            let names = ["npy_ok", "npy_midvalue", "npy_short", "npy_header_cut", "vcf", "vcf_gz", "bcf_raw", "bcf_gz", "empty", "w_text", "w_npy", "big_vcf", "big_vcf_gz", "big_bcf_gz"];
+            let names = ["npy_ok", "npy_midvalue", "npy_short", "npy_header_cut", "vcf", "vcf_gz", "bcf_raw", "bcf_gz", "empty", "w_text", "w_npy", "big_vcf", "big_vcf_gz", "big_bcf_gz", "vcf_gz_cut", "bcf_gz_cut", "bcf_raw_cut"];
             let v: Vec<Value> = names.iter().map(|n| {
                 let b = fam_stream::stream_file(n);
                 let gz = b.starts_with(&[0x1f, 0x8b]);
